@@ -24,7 +24,7 @@ theorem mlyDate_sh28 (r : Rule) (p x : Inst) (n : Nat) (h1 : 1901 ≤ x.y) (h2 :
     MlyDate r p (sh28 x n) ↔ MlyDate r p x := by
   unfold MlyDate
   by_cases c1 : r.dom ≠ []
-  · rw [if_pos c1, if_pos c1, mdayOk_sh28 r x n h1 h2, bydayLimit_sh28 r x n h1 h2]
+  · rw [if_pos c1, if_pos c1, mdayOk_sh28 r x n h1 h2, bydayInMonth_sh28 r x n h1 h2]
   · rw [if_neg c1, if_neg c1]
     by_cases c2 : r.dow ≠ []
     · rw [if_pos c2, if_pos c2, bydayInMonth_sh28 r x n h1 h2]
